@@ -286,7 +286,7 @@ func abnormalEnd(r *flatRun) string {
 func checkC09(c *gen.WPlusCase) Outcome {
 	out := Outcome{}
 	fc := &c.FlattenCase
-	inW := len(c.Kinds) == 0
+	inW := len(c.Kinds) == 0 && !usesNonSwagger2Keywords(fc)
 	if c.RawRoot == "" {
 		if msg := selfCheck(fc, inW); msg != "" {
 			out.Harness = msg
@@ -404,6 +404,18 @@ func checkC09(c *gen.WPlusCase) Outcome {
 		}
 	}
 	return out
+}
+
+// usesNonSwagger2Keywords: some schema of the bundle hangs from anyOf / oneOf / not / patternProperties
+// or from a "definitions" keyword nested in a schema.
+func usesNonSwagger2Keywords(c *gen.FlattenCase) bool {
+	f := bundleFeatures(c)
+	for _, h := range []string{"anyOf", "oneOf", "not", "patternProperties"} {
+		if f.holders[h] {
+			return true
+		}
+	}
+	return f.nestedDefs
 }
 
 func bucket(n int) int {
